@@ -37,12 +37,18 @@ theorem addZeroRow_spec {s s' : St} {row r : List Val} (hinv : Inv s)
   exact ⟨le1, f1, inv1, g1⟩
 
 theorem addRows_spec {s s' : St} {a b r : List Val} (hinv : Inv s) (ha : GoodRow s a) (hb : GoodRow s b)
-    (h : addRows a b s = .ok (r, s')) : s.le s' ∧ Frame s s' ∧ Inv s' ∧ GoodRow s' r :=
-  zipWithM'_spec addV (fun _ _ _ _ _ hinv ht hg h => addV_spec hinv ht hg h) a b s s' r hinv ha hb h
+    (h : addRows a b s = .ok (r, s')) : s.le s' ∧ Frame s s' ∧ Inv s' ∧ GoodRow s' r := by
+  unfold addRows at h
+  split at h
+  · exact zipWithM'_spec addV (fun _ _ _ _ _ hinv ht hg h => addV_spec hinv ht hg h) a b s s' r hinv ha hb h
+  · exact (raise_ok.mp h).elim
 
 theorem subRows_spec {s s' : St} {a b r : List Val} (hinv : Inv s) (ha : GoodRow s a) (hb : GoodRow s b)
-    (h : subRows a b s = .ok (r, s')) : s.le s' ∧ Frame s s' ∧ Inv s' ∧ GoodRow s' r :=
-  zipWithM'_spec subV (fun _ _ _ _ _ hinv ht hg h => subV_spec hinv ht hg h) a b s s' r hinv ha hb h
+    (h : subRows a b s = .ok (r, s')) : s.le s' ∧ Frame s s' ∧ Inv s' ∧ GoodRow s' r := by
+  unfold subRows at h
+  split at h
+  · exact zipWithM'_spec subV (fun _ _ _ _ _ hinv ht hg h => subV_spec hinv ht hg h) a b s s' r hinv ha hb h
+  · exact (raise_ok.mp h).elim
 
 theorem iteRow_spec {s s' : St} {c : LinComb} {t f r : List Val} (hinv : Inv s) (hc : Good s c)
     (ht : GoodRow s t) (hf : GoodRow s f) (h : iteRow c t f s = .ok (r, s')) :
